@@ -303,6 +303,41 @@ func runProperty(eng *Engine, verifDir, prop, tier string, updateLedger, verbose
 	for _, u := range unbound {
 		undecided = append(undecided, u+" (contract names a function that does not exist)")
 	}
+	// Obligations that could not be decided deductively (a contract that no longer binds to the code, a
+	// function that left the verifier's subset, or an obligation of code that did not exist on the
+	// unchanged tree): the replay corpus decides - a panic, a hang or a material difference from HEAD
+	// on the real code is reported as the violation, with the input; otherwise they stay undecided.
+	{
+		byFam := map[string][]string{}
+		for _, u := range undecided {
+			n := strings.SplitN(u, " ", 2)[0]
+			byFam[replayFamily(n)] = append(byFam[replayFamily(n)], u)
+		}
+		for _, u := range newFailed {
+			n := strings.SplitN(u, " ", 2)[0]
+			byFam[replayFamily(n)] = append(byFam[replayFamily(n)], u)
+		}
+		for _, fam := range sortedKeys(byFam) {
+			us := byFam[fam]
+			first := strings.SplitN(us[0], " ", 2)[0]
+			rec := map[string]interface{}{
+				"property":              prop,
+				"obligation":            first,
+				"undecided_obligations": us,
+				"note":                  "these obligations could not be decided deductively on this tree; the verdict comes from replaying the corpus on the real code against HEAD",
+			}
+			if tryReplayName(eng, verifDir, first, rec, true) {
+				dir := filepath.Join(verifDir, "replays", prop)
+				os.MkdirAll(dir, 0o755)
+				path := filepath.Join(dir, "undecided_"+fam+".json")
+				rec["reproduced_on_real_code"] = true
+				b, _ := json.MarshalIndent(rec, "", " ")
+				os.WriteFile(path, append(b, '\n'), 0o644)
+				violationLines = append(violationLines, fmt.Sprintf("VIOLATION property=%s replay=%s  # undecided obligation=%s (+%d more) decided by replay on the real code", prop, path, first, len(us)-1))
+				violations++
+			}
+		}
+	}
 	for _, u := range undecided {
 		fmt.Printf("UNDECIDED obligation=%s\n", u)
 	}
